@@ -11,8 +11,8 @@ normalisation functions of `internal/agdnet/agdnet.go`.
   `EngRes` is the part of `urlfilter.DNSResult` the wrappers look at (`matched`
   and the whitelist flag of `res.NetworkRule`, if any).  Every access theorem
   quantifies over all engines.  `ruleEngine` is a concrete engine over a small
-  rule grammar (`dom`, `||dom^`, `*`, `@@`, `$important`, `$dnstype=[~]T`), used by the
-  driver and characterised by its own theorem.
+  regex-free rule grammar of urlfilter (hosts-style names; patterns with `||`, `|`, `*`, `^`; `@@`,
+  `$important`, `$dnstype` lists), used by the driver and characterised by its own theorems.
 * `wrap` is the skeleton of `Middleware.Wrap` up to the call of
   `serveWithRatelimiting`, with an *effect log* (responses written by the
   middleware itself, calls of the next stage), the error it returns and the
@@ -84,62 +84,118 @@ def engBlocked (e : EngRes) : Bool :=
   | some w => if e.matched then !w else e.matched
   | none => e.matched
 
-/-! ## A concrete engine over a small rule grammar -/
+/-! ## A concrete engine over the regex-free urlfilter rule grammar
 
-inductive Kind where
-  /-- `dom` — a hosts-style rule, exact name. -/
-  | host
-  /-- `||dom^` — the domain and its subdomains. -/
-  | net
-  /-- `*` — every name (always written with a `$dnstype` modifier). -/
-  | any
+Rules are either hosts-style (`dom`, `IP dom1 dom2 …`: exact names) or network-style: an optional
+`@@`, a pattern — optional start anchor `||` or `|`, a body of literal characters, `*` and `^`, an
+optional end anchor `|` — and the modifiers `$important` and `$dnstype=` with a list of permitted and
+`~`restricted types.  `urlfilter` compiles such a pattern to a regular expression
+(`rules.patternToRegexp`); the model matches it directly. -/
+
+inductive Tok where
+  | lit (c : Char)
+  /-- `*`: any string. -/
+  | star
+  /-- `^`: one separator character, or the end of the name. -/
+  | sep
 deriving Repr, DecidableEq
 
-inductive TSel where
-  | all
-  | only (t : Nat)
-  | except (t : Nat)
+inductive Anchor where
+  /-- `||`: the name itself or any subdomain boundary (`^(http|https|ws|wss)://([a-z0-9-_.]+\.)?`). -/
+  | domain
+  /-- `|`: the beginning of the name. -/
+  | start
+  /-- no anchor: anywhere in the name. -/
+  | none
+deriving Repr, DecidableEq
+
+structure Pat where
+  anchor : Anchor
+  toks : List Tok
+  /-- a final `|`. -/
+  endAnch : Bool
+deriving Repr, DecidableEq
+
+/-- The characters `RegexSeparator = ([^ a-zA-Z0-9.%_-]|$)` does *not* accept. -/
+def nonSepChar (c : Char) : Bool :=
+  c.isAlphanum || c == ' ' || c == '.' || c == '%' || c == '_' || c == '-'
+
+/-- `[a-z0-9-_.]` under `(?i)`: what the optional subdomain part of `||` may consist of. -/
+def hostChar (c : Char) : Bool := c.isAlphanum || c == '-' || c == '_' || c == '.'
+
+/-- `p` holds for some suffix of the string (the regular expression is not anchored, or `.*`). -/
+def anySuffix (p : List Char → Bool) : List Char → Bool
+  | [] => p []
+  | x :: xs => p (x :: xs) || anySuffix p xs
+
+/-- The body of a pattern matches a prefix of the string (all of it when the pattern ends in `|`). -/
+def matchToks (endAnch : Bool) : List Tok → List Char → Bool
+  | [], s => !endAnch || s.isEmpty
+  | .lit c :: ts, s =>
+    match s with
+    | [] => false
+    | x :: xs => x.toLower == c.toLower && matchToks endAnch ts xs
+  | .sep :: ts, s =>
+    match s with
+    | [] => matchToks endAnch ts []
+    | x :: xs => !nonSepChar x && matchToks endAnch ts xs
+  | .star :: ts, s => anySuffix (matchToks endAnch ts) s
+
+/-- `p` holds right after a `.` that ends a non-empty run of host characters starting at the beginning
+(`n` characters have been passed). -/
+def afterDots (p : List Char → Bool) : Nat → List Char → Bool
+  | _, [] => false
+  | n, x :: xs => hostChar x && ((x == '.' && n != 0 && p xs) || afterDots p (n + 1) xs)
+
+def Pat.matches (p : Pat) (h : List Char) : Bool :=
+  match p.anchor with
+  | .domain => matchToks p.endAnch p.toks h || afterDots (matchToks p.endAnch p.toks) 0 h
+  | .start => matchToks p.endAnch p.toks h
+  | .none => anySuffix (matchToks p.endAnch p.toks) h
+
+/-- Length of the pattern text. -/
+def Pat.textLen (p : Pat) : Nat :=
+  (match p.anchor with | .domain => 2 | .start => 1 | .none => 0) + p.toks.length + (if p.endAnch then 1 else 0)
+
+inductive Kind where
+  /-- hosts-style rule: exact names. -/
+  | host
+  /-- network-style rule: a pattern with modifiers. -/
+  | net
 deriving Repr, DecidableEq
 
 structure Rule where
   kind : Kind
-  dom : String
-  allow : Bool
-  important : Bool
-  tsel : TSel
+  /-- names of a hosts-style rule. -/
+  hosts : List String := []
+  pat : Pat := ⟨.none, [], false⟩
+  allow : Bool := false
+  important : Bool := false
+  /-- `$dnstype=A|AAAA`. -/
+  permitted : List Nat := []
+  /-- `$dnstype=~A|~AAAA`. -/
+  restricted : List Nat := []
 deriving Repr, DecidableEq
 
-/-- `strings.Split(s, ".")` by structural recursion. -/
-def splitDots : List Char → List (List Char)
-  | [] => [[]]
-  | c :: cs =>
-    match splitDots cs with
-    | [] => [[c]]
-    | l :: ls => if c == '.' then [] :: l :: ls else (c :: l) :: ls
+/-- `NetworkRule.matchDNSType`. -/
+def Rule.typeOk (r : Rule) (qt : Nat) : Bool :=
+  !r.restricted.contains qt && (r.permitted.isEmpty || r.permitted.contains qt)
 
-def labels (h : String) : List (List Char) := splitDots h.toList
-
-def TSel.ok : TSel → Nat → Bool
-  | .all, _ => true
-  | .only t, q => t == q
-  | .except t, q => t != q
-
-/-- Rule texts are lower-cased when the engine is built. -/
-def Rule.matchesName (r : Rule) (h : String) : Bool :=
-  match r.kind with
-  | .host => h == lower r.dom
-  | .net => (labels (lower r.dom)).isSuffixOf (labels h)
-  | .any => true
+/-- `NewNetworkRule` refuses (`ErrTooWideRule`) a pattern shorter than three characters unless a
+`$dnstype` restricts the rule; the rule list skips refused rules. -/
+def Rule.valid (r : Rule) : Bool :=
+  r.kind == .host || !(r.pat.textLen < 3 && r.permitted.isEmpty && r.restricted.isEmpty)
 
 def Rule.isNet (r : Rule) : Bool := r.kind != .host
 
 /-- A network rule matches the name and the query type. -/
 def Rule.netMatches (r : Rule) (h : String) (qt : Nat) : Bool :=
-  r.isNet && r.matchesName h && r.tsel.ok qt
+  r.isNet && r.valid && r.pat.matches h.toList && r.typeOk qt
 
-/-- A hosts-style rule matches the exact name (modifiers do not exist for it). -/
+/-- A hosts-style rule matches the exact name (modifiers do not exist for it); rule texts are
+lower-cased when the engine is built. -/
 def Rule.hostMatches (r : Rule) (h : String) : Bool :=
-  !r.isNet && r.matchesName h
+  !r.isNet && (r.hosts.map lower).contains h
 
 /-- Priority class of `NetworkRule.IsHigherPriority`: important exception 3, important block 2,
 exception 1, block 0.  (The remaining tie-breakers choose among rules of one class and cannot
@@ -357,5 +413,93 @@ def fillInfo (_pooled : RI) (r : Req) : RI :=
   let ri := { ri with dev := r.dev.kind }
   -- ri.Location, ri.ECS = loc, ecs
   { ri with asn := r.asn, ecs := r.ecsOk && !r.ecsBad }
+
+/-! ## The server around the handler (`dnsserver.ServerBase` and the per-protocol servers)
+
+Before the handler runs, `ServerBase.acceptMsg` looks at the shape of the message; after it, the
+protocol server decides what to do when nothing was written. -/
+
+inductive Proto where
+  | udp | tcp | dot | doh | doq | dnscrypt
+deriving Repr, DecidableEq
+
+/-- What `acceptMsg` looks at. -/
+structure MsgShape where
+  response : Bool := false
+  opcode : Nat := 0
+  nQ : Nat := 1
+  nAns : Nat := 0
+  nNs : Nat := 0
+deriving Repr, DecidableEq
+
+inductive Accept where
+  | accept | reject | notImpl | ignore
+deriving Repr, DecidableEq
+
+/-- `ServerBase.acceptMsg`: responses are ignored, opcodes other than QUERY (0) and NOTIFY (4) are not
+implemented, anything but one question, at most one answer and at most one authority record is
+malformed. -/
+def acceptMsg (m : MsgShape) : Accept :=
+  if m.response then .ignore
+  else if m.opcode != 0 && m.opcode != 4 then .notImpl
+  else if m.nQ != 1 then .reject
+  else if m.nAns > 1 then .reject
+  else if m.nNs > 1 then .reject
+  else .accept
+
+/-- What reaches the client. -/
+inductive Reply where
+  /-- FORMERR written by the server for a message `acceptMsg` rejects. -/
+  | srvFormerr
+  /-- NOTIMP written by the server. -/
+  | srvNotimp
+  /-- SERVFAIL written by the server: the handler returned an error, or (DoQ, DNSCrypt) wrote nothing. -/
+  | srvServfail
+  /-- FORMERR written by the middleware for a malformed ECS option. -/
+  | mwFormerr
+  /-- whatever the next stage wrote. -/
+  | fromNext
+  /-- DoH only: HTTP status 500 "No response", no DNS message. -/
+  | http500
+deriving Repr, DecidableEq
+
+/-- DNS-over-HTTPS, DNS-over-QUIC and DNSCrypt buffer the response (`NonWriterResponseWriter`): only
+the last message written survives. -/
+def Proto.buffered : Proto → Bool
+  | .doh | .doq | .dnscrypt => true
+  | _ => false
+
+/-- The protocol server's reaction when nothing was written for a message: UDP sends nothing, TCP and
+DoT close the connection, DoH answers HTTP 500, DoQ and DNSCrypt answer SERVFAIL. -/
+def noResponse : Proto → List Reply
+  | .doq | .dnscrypt => [.srvServfail]
+  | .doh => [.http500]
+  | _ => []
+
+def sent (p : Proto) (l : List Reply) : List Reply :=
+  match l with
+  | [] => noResponse p
+  | _ => if p.buffered then l.drop (l.length - 1) else l
+
+/-- One message through a real server: `acceptMsg`, then the handler (`wrap`) with the next stage
+writing a response or not, then `serveDNSMsgInternal`'s SERVFAIL for a returned error, then the
+protocol's reaction to silence. -/
+def serverWire (p : Proto) (m : MsgShape) (g : Global) (r : Req) (nextWrites : Bool) : List Reply :=
+  match acceptMsg m with
+  | .ignore => noResponse p
+  | .reject => [.srvFormerr]
+  | .notImpl => [.srvNotimp]
+  | .accept =>
+    sent p
+      ((wrap g r).effects.filterMap (fun e =>
+          match e with
+          | .formerr => some .mwFormerr
+          | .next => if nextWrites then some .fromNext else none
+          | .servfail => some .srvServfail) ++
+        (if (wrap g r).err then [.srvServfail] else []))
+
+/-- The next stage ran for this message. -/
+def serverReachedNext (m : MsgShape) (g : Global) (r : Req) : Bool :=
+  acceptMsg m == .accept && (wrap g r).effects.contains .next
 
 end Agd.Access
